@@ -570,9 +570,12 @@ pub enum Consumer {
     FindAny,
     /// `take_any(k).count()`
     TakeAnyCount(usize),
+    /// `World::run_par_system` with a `ParSystem` over the same views and filter whose body is `for_each`; the system
+    /// must be run exactly once, whatever the world holds
+    ParSystem,
 }
 
-pub const CONSUMERS: [Consumer; 11] = [Consumer::ForEach, Consumer::MapCollect, Consumer::Count, Consumer::Any, Consumer::Sum, Consumer::TakeAny(1), Consumer::TakeAny(2), Consumer::TakeAny(3), Consumer::FindAny, Consumer::TakeAnyCount(2), Consumer::TakeAnyCount(3)];
+pub const CONSUMERS: [Consumer; 12] = [Consumer::ParSystem, Consumer::ForEach, Consumer::MapCollect, Consumer::Count, Consumer::Any, Consumer::Sum, Consumer::TakeAny(1), Consumer::TakeAny(2), Consumer::TakeAny(3), Consumer::FindAny, Consumer::TakeAnyCount(2), Consumer::TakeAnyCount(3)];
 
 /// par closure: runs `par_query` with the given consumer; returns the rows it saw (ForEach / MapCollect)
 /// and a scalar (Count / Any / Sum).
@@ -604,7 +607,10 @@ pub fn run_par_case(ctx: &mut GridCtx, desc: &QDesc, seq: SeqFn, par: ParFn) {
                 ctx.stats.par_evaluations += 1;
                 let exp = desc.expected(&ex.m);
                 match consumer {
-                    Consumer::ForEach | Consumer::MapCollect => {
+                    Consumer::ForEach | Consumer::MapCollect | Consumer::ParSystem => {
+                        if consumer == Consumer::ParSystem && scalar != 1 {
+                            fails.push(("par-system-body-run-count".into(), format!("run_par_system ran the system body {} times", scalar)));
+                        }
                         ctx.stats.rows_checked += rows.len() as u64;
                         if let Some(f) = check_rows(desc, &rows, &ex.m, "par-query") {
                             fails.push(f);
@@ -726,8 +732,11 @@ pub fn rw<C: Comp>(x: &mut C) -> u32 {
     v
 }
 
-fn build_w3() -> W3 {
+fn build_w3(empty: bool) -> W3 {
     let mut w = W3::with_resources(brood::resources!(R0::make(RES_INIT[0]), R1::make(RES_INIT[1]), R2::make(RES_INIT[2])));
+    if empty {
+        return w;
+    }
     w.insert(brood::entity!(A::make(1), B::make(2)));
     w.insert(brood::entity!(O::make(3)));
     w.insert(brood::entity!());
@@ -752,22 +761,24 @@ fn read_all_paths(w: &mut W3) -> Vec<[u32; 3]> {
 }
 
 /// `views`: (resource index, mutable) in requested order; `access(world, path)` performs the access through
-/// path 0 `view_resources`, 1 `query` resource views, 2 `par_query` resource views, 3 `run_system`, returning the
+/// path 0 `view_resources`, 1 `query` resource views, 2 `par_query` resource views, 3 `run_system`, 4 `run_par_system`, returning the
 /// value read through each view (mutable views additionally add `RES_DELTA`).
 pub fn run_res_case(ctx: &mut GridCtx, label: &'static str, views: &[(usize, bool)], access: &dyn Fn(&mut W3, u8) -> Vec<u32>) {
     ctx.stats.instantiations += 1;
-    for path in 0..4u8 {
+    // every path on a populated world and on a world without entities (a system's resource views and its own
+    // state must be served whether or not any entity matches)
+    for (path, empty) in (0..5u8).flat_map(|p| [(p, false), (p, true)]) {
         arena::begin(0);
         comp::ledger_begin();
         let mut fails: Vec<(String, String)> = Vec::new();
         {
-            let mut w = build_w3();
+            let mut w = build_w3(empty);
             let w2 = w.clone();
             let got = access(&mut w, path);
             ctx.stats.evaluations += 1;
             let want: Vec<u32> = views.iter().map(|(i, _)| RES_INIT[*i]).collect();
             if got != want {
-                fails.push((format!("resource-view-returned-wrong-resource path={}", path), format!("views {:?}: read {:?}, expected {:?}", views, got, want)));
+                fails.push((format!("resource-view-returned-wrong-resource path={}{}", path, if empty { " empty-world" } else { "" }), format!("views {:?}: read {:?}, expected {:?}", views, got, want)));
             }
             let mut exp = RES_INIT;
             for (i, m) in views {
@@ -777,7 +788,7 @@ pub fn run_res_case(ctx: &mut GridCtx, label: &'static str, views: &[(usize, boo
             }
             for (pi, r) in read_all_paths(&mut w).iter().enumerate() {
                 if *r != exp {
-                    fails.push((format!("write-not-visible-through-other-path path={} readback={}", path, pi), format!("views {:?}: resources read {:?}, expected {:?}", views, r, exp)));
+                    fails.push((format!("write-not-visible-through-other-path path={}{} readback={}", path, if empty { " empty-world" } else { "" }, pi), format!("views {:?}: resources read {:?}, expected {:?}", views, r, exp)));
                 }
             }
             // an independent clone taken before the access is untouched
